@@ -255,55 +255,16 @@ def run_concurrent(params, prefix):
     sc = H.worker_scratch()
     cdir = sc.sub()
     targets = [sc.sub(), sc.sub()]
-    BasePath = type(Path())
-    cprefix = str(cdir)
-
-    def pt(label):
+    def pt(label, path=None):
         s_ = dsched.cur()
-        if s_ is not None and not s_.teardown:
+        if s_ is not None and not s_.teardown and not s_.aborting:
             s_.point('cache:' + label)
 
-    class KPath(BasePath):
-        def _mine(self):
-            return str(self).startswith(cprefix)
-
-        def write_bytes(self, data):
-            if not self._mine():
-                return super().write_bytes(data)
-            pt('open-truncate')
-            with BasePath.open(self, 'wb') as f:
-                pt('write-1')
-                half = len(data) // 2
-                f.write(data[:half])
-                f.flush()
-                pt('write-2')
-                f.write(data[half:])
-                f.flush()
-                pt('close')
-            return len(data)
-
-        def read_bytes(self):
-            if self._mine():
-                pt('read')
-            return super().read_bytes()
-
-        def replace(self, target):
-            if self._mine():
-                pt('rename')
-            return super().replace(target)
-
-        def unlink(self, *a, **k):
-            if self._mine():
-                pt('unlink')
-            return super().unlink(*a, **k)
-
-        def mkdir(self, *a, **k):
-            if self._mine():
-                pt('mkdir')
-            return super().mkdir(*a, **k)
-
-    saved = R.Path
-    R.Path = KPath
+    # every os/io call that touches the cache directory is a scheduling point, however the cache code spells its
+    # file handling (mc.fsteps); writes are torn in two with the first half pushed to the file before the point
+    from mc.fsteps import FSteps
+    fsteps = FSteps(cdir, pt, reads=True)
+    fsteps.install()
     store = W.Store(st.o)
     W.set_random('c18-conc')
     W.set_clock()
@@ -336,7 +297,7 @@ def run_concurrent(params, prefix):
     try:
         x = dsched.run_one(lambda loop, s_: go(cdir), prefix, horizon=8000)
     finally:
-        R.Path = saved
+        fsteps.uninstall()
     import shutil
     trees = [{p[len(str(t)):]: v[0] for p, v in W.read_tree(t).items()} for t in targets]
     leftovers = [f for d, _, fs in os.walk(cdir) for f in fs if f.endswith('.tmp')]
